@@ -485,7 +485,7 @@ def c18(c):
 
 C19_THEOREMS = ["Ctl.hSolve_protocol", "Ctl.rk23Solve_inv", "Ctl.rk4Solve_inv", "Ctl.afterCb_interrupt", "Ctl.afterCb_modified",
                 "Ctl.afterCb_cont", "Ctl.hFinish_interrupt", "Ctl.afterCb_go_meter", "c19_scaled_continuation_dopri5", "c19_scaled_continuation_dop853",
-                "c19_scaled_continuation_rk23", "c19_scaled_continuation_rk4", "Ctl.afterCb_scale"]
+                "c19_scaled_continuation_rk23", "c19_scaled_continuation_rk4", "Ctl.afterCb_scale", "c19_noop_modified", "Ctl.hIter_meq", "Ctl.hLoop_meq"]
 
 
 def c19(c):
